@@ -98,7 +98,7 @@ fn check_model(p: &[MeanVari], rep: &Report, ties: &AtomicU64, floors: &AtomicU6
 
 pub fn run(tier: Tier) -> i32 {
     let rep = Report::new("C08", tier, "model_checking");
-    rep.set_rule("SCOPE: full product over states 1..N of (mean in {0.2,0.49,0.5,1.5,2.5,10,60}) x (variance in {0,1e-3,1,400}) x speed lattice {0.1..50} plus F1/(k+0.5)(1±1e-9) rounding boundaries, on the real DurationEstimator::create (constructed with states-per-phoneme 1, 2, 3, 5 or the whole length); plus long utterances (200 and 1500 states, totals up to 10^6 frames; 4095..8201 states, thorough 32772); distinct = distinct (model, speed) pairs; non-trivial = every case (each evaluates the total-frames law)");
+    rep.set_rule("SCOPE: full product over states 1..N of (mean in {0.2,0.49,0.5,1.5,2.5,10,60}) x (variance in {0,1e-3,1,400}) x speed lattice {0.1..50} plus F1/(k+0.5)(1±1e-9) rounding boundaries, on the real DurationEstimator::create (constructed with states-per-phoneme 1, 2, 3, 5 or the whole length); plus long utterances (200 and 1500 states, totals up to 10^6 frames; 4095..8201 states, thorough 32772; one loose state among 119..199 tight ones, which takes more than 2^16 frames at speed 0.1); distinct = distinct (model, speed) pairs; non-trivial = every case (each evaluates the total-frames law)");
     rep.assume("means/variances/speeds outside the listed alphabets are not explored; at exact .5 ties either rounding is accepted");
     let max_states = tier.pick(4usize, 5usize);
     let per = MEANS.len() * VARS.len();
@@ -217,6 +217,12 @@ pub fn run(tier: Tier) -> i32 {
                 })
                 .collect();
             seqs.push((format!("recurrence-mixed, {} states (x <- 6364136223846793005 x + 1442695040888963407 from {})", n, 12345 + k), p));
+        }
+        // one loose state among tight ones: at slow speeds nearly every extra frame goes to that one state (more than 2^16
+        // frames in a single state at speed 0.1)
+        for (n, at) in [(120usize, 0usize), (200, 100), (200, 199), (150, 1)] {
+            let p: Vec<MeanVari> = (0..n).map(|i| if i == at { MeanVari(60.0, 400.0) } else { MeanVari(60.0, 1e-3) }).collect();
+            seqs.push((format!("{} states of mean 60, variance 1e-3, but state {} with variance 400", n, at), p));
         }
         nmodels += seqs.len() as u64;
         rep.par_for(seqs.len(), 1, "C08 long irregular", |i| {
